@@ -159,7 +159,8 @@ PROPS['C04'] = hist_prop(3,
     "Theorems C04_* prove: the predecessor's recorded validity start is where its last report ended, whatever follows (incl. "
     "retirement); a retired instance emits only the retirement report carrying those starts; promotion needs a verified attestation "
     "and adopts its starts; the successor's first report of a listed channel starts exactly there however late the channel is "
-    "defined; non-production reports are specimen.",
+    "defined; non-production reports are specimen. The predecessor law, promotion-adopts and the handover start are also stated over "
+    "byte-level histories of Plugin.Outcome (C04_*_on_the_wire).",
     "attestation verification (CheckAttestedRetirementReport) is external and assumed sound: GoodAttest va = the predecessor's report")
 PROPS['C05'] = hist_prop(4,
     "Theorems C05_* prove for any previous outcome and any observation list: initial stage by presence of a predecessor; stage only "
@@ -172,7 +173,8 @@ PROPS['C06'] = hist_prop(5,
     "verified attestation carried by an observation (and a configured predecessor); with at most f faulty observers and correct "
     "ones not voting nothing changes; a retired instance ignores all votes. End to end (C06_def_change_traces_to_correct_cache, "
     "C06_stage_change_traces_back): with at most f senders of arbitrary bytes a change of the channel set traces back to some correct node's "
-    "definitions cache, a retirement to a correct node's ShouldRetire cache, a promotion to a verified attestation.",
+    "definitions cache, a retirement to a correct node's ShouldRetire cache, a promotion to a verified attestation. The two vote laws "
+    "are also stated for one byte-level call of Plugin.Outcome (C06_*_on_the_wire: votes counted over the observation bytes that decode).",
     "MakeChannelHash (SHA-256) is collision-free on the definitions voted in a round (votes are grouped by (id, definition))")
 PROPS['C18'] = hist_prop(7,
     "Theorems C18_* prove for one outcome step from any state: a timestamped aggregate of a still-referenced (stream, aggregator) "
